@@ -23,7 +23,8 @@ deriving DecidableEq, Repr
 structure St where
   phase : Phase := .reading
   alive : Bool := true        -- the command's process group leader has not exited
-  pipe : Bool := true         -- the command still holds its output open
+  pipe : Bool := true         -- the command (or a child of it) still holds its output open
+  orphans : Bool := false     -- the leader has exited and children of it are still there (they hold the output)
   interrupt : Bool := false   -- the `interrupt` flag
   hup : Bool := false         -- SIGHUP was sent to the process group
   killed : Bool := false      -- the command was killed
@@ -37,22 +38,25 @@ deriving DecidableEq, Repr
 inductive Ev
   | line      -- a line of output arrives
   | eof       -- the command closes its output (e.g. `exec >>action.log`)
-  | exit      -- the process exits by itself (or because it was signalled)
+  | exit      -- the process exits by itself (or because it was signalled), nothing of its group is left
+  | exitKeep  -- the group leader (the shell) exits, children it started in the background go on and hold the output
   | stop | cancel | term
   | twoSec    -- two seconds pass
 deriving DecidableEq, Repr
 
-def allEvents : List Ev := [.line, .eof, .exit, .stop, .cancel, .term, .twoSec]
+def allEvents : List Ev := [.line, .eof, .exit, .exitKeep, .stop, .cancel, .term, .twoSec]
 
 /-- is the request to stop effective for this runner? -/
 def St.asked (p : Params) (s : St) : Bool :=
   (s.stop && p.interruptible) || s.cancel || (s.term && p.hasTerm)
 
+/-- the signals go to the process group, which is named by the pid of its leader (repair bfee10c): they reach the group
+as long as a member of it is left, the leader or its children -/
 def sendHup (s : St) : St :=
-  if s.alive then { s with hup := true } else { s with lateSignal := true }
+  if s.alive || s.orphans then { s with hup := true } else { s with lateSignal := true }
 
 def sendKill (s : St) : St :=
-  if s.alive then { s with killed := true } else s      -- killCmd() on a finished command is a no-op
+  if s.alive || s.orphans then { s with killed := true } else s      -- killCmd() on a finished command is a no-op
 
 /-- entering the drain goroutine: `if interrupt { SIGHUP to the group }` -/
 def enterDrain (s : St) : St :=
@@ -75,13 +79,19 @@ def step (p : Params) (s : St) (e : Ev) : St :=
     | .line => s
     | .eof =>
       if !s.pipe then s else
+      -- (children left behind by the shell close the output when they end: nothing of the group is left then)
       match s.phase with
-      | .reading => { s with pipe := false, phase := .drained }   -- leaves both loops: nothing was interrupted
-      | .draining => { s with pipe := false, phase := .drained }
-      | _ => { s with pipe := false }
-    | .exit => if s.alive then { s with alive := false, pipe := false,
-                                          phase := if s.phase == .reading || s.phase == .draining then .drained else s.phase }
-               else s
+      | .reading => { s with pipe := false, orphans := false, phase := .drained }   -- leaves both loops: nothing was interrupted
+      | .draining => { s with pipe := false, orphans := false, phase := .drained }
+      | _ => { s with pipe := false, orphans := false }
+    | .exit =>
+      if s.alive || s.orphans then
+        { s with alive := false, orphans := false, pipe := false,
+                 phase := if s.phase == .reading || s.phase == .draining then .drained else s.phase }
+      else s
+    | .exitKeep =>
+      -- the leader is gone, the output stays open: the read loops go on, `cmd.Wait()` is not even reached while reading
+      if s.alive && s.pipe then { s with alive := false, orphans := true } else s
     | .stop =>
       let s1 := { s with stop := true }
       if !p.interruptible then s1 else
@@ -132,11 +142,11 @@ def allParams : List Params :=
 
 /-- asked to stop while the command is alive ⇒ its process group got a SIGHUP (or was killed) -/
 def interruptReaches (p : Params) (s : St) : Bool :=
-  !(s.asked p && s.alive && s.phase != .returned) || s.hup || s.killed
+  !(s.asked p && (s.alive || s.orphans) && s.phase != .returned) || s.hup || s.killed
 
 /-- … and two seconds later it is killed -/
 def killedAfterGrace (p : Params) (s : St) : Bool :=
-  !(s.asked p && s.alive && s.grace && s.phase != .returned) || s.killed
+  !(s.asked p && (s.alive || s.orphans) && s.grace && s.phase != .returned) || s.killed
 
 /-- the runner returns only after the process has exited and its output was drained -/
 def returnsAfterExit (s : St) : Bool := !(s.phase == .returned) || (!s.alive && !s.pipe)
